@@ -120,6 +120,8 @@ def obs_synset_x(wn, s):
             'relations': {k: [_synref(t) for t in v] for k, v in s.relations().items()},
             'by_type': {k: [_synref(t) for t in s.get_related(k)] for k in s.relations()},
             'translate': {_spec(l): [_synref(t) for t in s.translate(lexicon=_spec(l))] for l in wn.lexicons()},
+            # without a target: every installed lexicon, however the synset was reached (oracle only)
+            '_translate_all': [_synref(t) for t in s.translate()],
             'closure_hypernym': [_synref(t) for t in s.closure('hypernym', 'instance_hypernym')],
             'hypernym_paths': [[_synref(t) for t in p] for p in s.relation_paths('hypernym', 'instance_hypernym')],
             # the taxonomy entry points over the same relation (wn.taxonomy / Synset shortcut methods)
@@ -288,11 +290,12 @@ def canon_battery(b, sort_forms_tail=True):
                    'relations': {k: sorted(v, key=_k) for k, v in sorted(x['relations'].items())},
                    'by_type': {k: sorted(v, key=_k) for k, v in sorted(x.get('by_type', {}).items())},
                    'translate': {k: (sorted(v, key=_k) if isinstance(v, list) else v) for k, v in sorted(x.get('translate', {}).items())},
+                   '_translate_all': sorted(x['_translate_all'], key=_k) if '_translate_all' in x else None,
                    'closure_hypernym': sorted(x['closure_hypernym'], key=_k),
                    'hypernym_paths': sorted(x['hypernym_paths'], key=_k),
                    'tax_paths': sorted(x.get('tax_paths', x['hypernym_paths']), key=_k),
                    'depths': x.get('depths', [min([len(p) for p in x['hypernym_paths']] or [0]), max([len(p) for p in x['hypernym_paths']] or [0])])})
-    sc['synsets_x'] = sorted(xs, key=_k)
+    sc['synsets_x'] = sorted(xs, key=lambda x: _k({k: v for k, v in x.items() if not k.startswith('_')}))
     ys = []
     for x in b['scope'].get('senses_x', []):
         ys.append({'ref': x['ref'], 'get_related': sorted(x['get_related'], key=_k),
